@@ -1176,10 +1176,33 @@ func unhxSafe(s string) string {
 	return string(b)
 }
 
-const clLookupTimeout = 8 * time.Second
+// a variable so that a scenario that timed out can be confirmed with a far longer limit (clRunScenario)
+var clLookupTimeout = 8 * time.Second
 
 // clRunScenario executes a scenario on the real Client.
+// clRunScenario runs the scenario; a run that ends in `hang` (a lookup, or the schedule, exceeded clLookupTimeout of WALL
+// time) is run once more with a four-fold limit before the hang is believed: on a loaded machine (a thorough sweep
+// next to other work) eight seconds of wall time are not evidence of a deadlock.  A genuine deadlock or livelock hangs
+// again and is reported as before (revert-F7 style changes still are).
 func clRunScenario(sc *clScenario) *clOutcome {
+	out := clRunScenarioOnce(sc)
+	if out == nil || !out.hang || clConfirmedHangs >= 2 {
+		// after two confirmed hangs the code under test evidently does hang: later ones are believed at once
+		return out
+	}
+	old := clLookupTimeout
+	clLookupTimeout = 4 * old
+	defer func() { clLookupTimeout = old }()
+	out2 := clRunScenarioOnce(sc)
+	if out2 != nil && out2.hang {
+		clConfirmedHangs++
+	}
+	return out2
+}
+
+var clConfirmedHangs int
+
+func clRunScenarioOnce(sc *clScenario) *clOutcome {
 	w := clGetWorld(sc.wseed, sc.nA, sc.p, sc.nB)
 	env := clNewEnv(w)
 	out := &clOutcome{sc: sc, w: w, env: env, clients: map[int]*sumdb.Client{}, opsOf: map[int]*clOps{}, latestSamples: map[int][]int64{}, nosumdbOf: map[int]string{}}
